@@ -26,7 +26,9 @@ CONSTANTS Buckets,     \* set of bucket identifiers (strings)
           Prefixes,    \* set of listing prefixes: Seq(char)
           MaxOps,      \* bound on the length of a behaviour (exhaustive runs)
           Styles,      \* the ways a caller can write an object (see WriteStyles)
-          EmptyData    \* the data identifier that stands for the empty byte string
+          EmptyData,   \* the data identifier that stands for the empty byte string
+          CopyOn,      \* whether behaviours contain Copy operations
+          CopyMiss     \* names tried as ABSENT copy sources (stored objects are always tried)
 
 VARIABLES objs,        \* [Buckets -> [some subset of Names -> Datas]]
           res,         \* result of the last operation
@@ -78,7 +80,10 @@ Usable(b, n) == \A m \in Stored(b) : ~Conflict(n, m)
 NotExist == [ok |-> FALSE, data |-> ""]
 Found(d) == [ok |-> TRUE, data |-> d]
 Res(kind, ok, data, names) == [kind |-> kind, ok |-> ok, data |-> data, names |-> names]
-Op(op, b, n, d, p, s) == [op |-> op, b |-> b, name |-> n, data |-> d, prefix |-> p, style |-> s]
+NoSrc == [b |-> "", name |-> <<>>]
+Op(op, b, n, d, p, s) == [op |-> op, b |-> b, name |-> n, data |-> d, prefix |-> p, style |-> s, src |-> NoSrc]
+OpCopy(b, n, d, sb, sn) == [op |-> "copy", b |-> b, name |-> n, data |-> d, prefix |-> <<>>, style |-> "",
+                            src |-> [b |-> sb, name |-> sn]]
 
 (* How the bytes reach the object is not the property's business: an object  *)
 (* exists, with exactly the bytes written, as soon as its writer is closed,  *)
@@ -97,6 +102,12 @@ StyleOK(s, d) == s \in WriteStyles /\ (s = "nowrite" => d = EmptyData)
 ReadResult(o, b, n) == IF n \in DOMAIN o[b] THEN Found(o[b][n]) ELSE NotExist
 ListResult(o, b, p) == {n \in DOMAIN o[b] : IsPrefix(p, NameStr(n))}
 WriteEffect(o, b, n, d) == [o EXCEPT ![b] = Put(@, n, d)]
+(* Copy(dst, src): the destination becomes an object of its own holding the  *)
+(* bytes the source holds NOW; the two objects stay independent afterwards   *)
+(* (the map stores values, not references).  An absent source is an error    *)
+(* and leaves the destination as it was.                                     *)
+CopyOK(o, sb, sn) == sn \in DOMAIN o[sb]
+CopyEffect(o, b, n, sb, sn) == IF CopyOK(o, sb, sn) THEN WriteEffect(o, b, n, o[sb][sn]) ELSE o
 
 Init == /\ objs = [b \in Buckets |-> <<>>]
         /\ res = Res("init", TRUE, "", {})
@@ -119,19 +130,34 @@ List(b, p) == /\ res' = Res("list", TRUE, "", ListResult(objs, b, p))
               /\ last' = Op("list", b, <<>>, "", p, "")
               /\ UNCHANGED <<objs, hist>>
 
+(* copy within one bucket or across two; never an object onto itself *)
+Copy(b, n, sb, sn) ==
+    /\ CopyOn
+    /\ <<b, n>> # <<sb, sn>>
+    /\ Usable(b, n) /\ Usable(sb, sn)
+    /\ objs' = CopyEffect(objs, b, n, sb, sn)
+    /\ res' = Res("copy", CopyOK(objs, sb, sn), "", {})
+    /\ last' = OpCopy(b, n, IF CopyOK(objs, sb, sn) THEN objs[sb][sn] ELSE "", sb, sn)
+    /\ hist' = IF CopyOK(objs, sb, sn) THEN Append(hist, [b |-> b, name |-> n, data |-> objs[sb][sn]]) ELSE hist
+(* sources explored: every stored object, and the names of CopyMiss (absent or not) *)
+Copies == \E b \in Buckets, n \in Names, sb \in Buckets : \E sn \in Stored(sb) \cup CopyMiss : Copy(b, n, sb, sn)
+
 Next == \/ \E b \in Buckets, n \in Names, d \in Datas, s \in Styles : Write(b, n, d, s)
         \/ \E b \in Buckets, n \in Names : Read(b, n)
         \/ \E b \in Buckets, p \in Prefixes : List(b, p)
+        \/ Copies
 
 Spec == Init /\ [][Next]_vars
 
 Bounded == Len(hist) <= MaxOps   \* state constraint of the exhaustive runs
 (* Exhaustive exploration: a read or a list does not change the map, so the  *)
 (* operations after it lead to the same states as from its predecessor; the  *)
-(* exhaustive runs therefore treat read / list states as leaves.             *)
-NextBfs == /\ last.op \notin {"read", "list"}
+(* exhaustive runs therefore treat read / list states (and failed copies)    *)
+(* as leaves.                                                                *)
+NextBfs == /\ last.op \notin {"read", "list"} /\ ~(last.op = "copy" /\ ~res.ok)
            /\ \/ /\ Len(hist) < MaxOps
-                 /\ \E b \in Buckets, n \in Names, d \in Datas, s \in Styles : Write(b, n, d, s)
+                 /\ \/ \E b \in Buckets, n \in Names, d \in Datas, s \in Styles : Write(b, n, d, s)
+                    \/ Copies
               \/ \E b \in Buckets, n \in Names : Read(b, n)
               \/ \E b \in Buckets, p \in Prefixes : List(b, p)
 SpecBfs == Init /\ [][NextBfs]_vars
@@ -147,6 +173,16 @@ ResultFromHistory ==
             ELSE res.ok /\ res.data = LatestWrite(last.b, last.name).data
       [] last.op = "list" ->
             res.names = {n \in EverWritten(last.b) : IsPrefix(last.prefix, NameStr(n))}
+      [] last.op = "copy" ->
+            (* before the copy the history was `h`; the copy succeeds iff the   *)
+            (* source had been written, and then counts as a write of the      *)
+            (* source's latest bytes to the destination                        *)
+            LET h == IF res.ok THEN SubSeq(hist, 1, Len(hist) - 1) ELSE hist
+                W == {i \in 1..Len(h) : h[i].b = last.src.b /\ h[i].name = last.src.name}
+            IN IF W = {} THEN ~res.ok
+               ELSE /\ res.ok
+                    /\ hist[Len(hist)] = [b |-> last.b, name |-> last.name,
+                                          data |-> h[CHOOSE i \in W : \A j \in W : j <= i].data]
       [] OTHER -> TRUE
 
 (* what is on disk: one file per stored object, at <root>/<bucket>/<name>,   *)
@@ -158,6 +194,11 @@ Confined == /\ \A b \in Buckets : \A n \in Stored(b) : Ordinary(n) /\ Inside(n)
             /\ \A p \in Disk : Inside(Tail(p)) /\ Head(p) \in Buckets
 NoConflicts == \A b \in Buckets : \A n, m \in Stored(b) : ~Conflict(n, m)
 (* buckets are independent: a write touches one bucket only *)
-OtherBucketsUntouched == [][\A b \in Buckets : (last'.op = "write" /\ last'.b # b) => objs'[b] = objs[b]]_vars
-OnlyWritesChange == [][last'.op # "write" => objs' = objs]_vars
+OtherBucketsUntouched == [][\A b \in Buckets : (last'.op \in {"write", "copy"} /\ last'.b # b) => objs'[b] = objs[b]]_vars
+OnlyWritesChange == [][last'.op \notin {"write", "copy"} => objs' = objs]_vars
+(* a write or copy changes at most the one object it names -- in particular  *)
+(* overwriting an object never changes one that was copied from or to it     *)
+OnlyTargetChanges == [][\A b \in Buckets : \A n \in Stored(b) :
+                          (last'.op \in {"write", "copy"} /\ <<b, n>> # <<last'.b, last'.name>>)
+                             => (n \in DOMAIN objs'[b] /\ objs'[b][n] = objs[b][n])]_vars
 =============================================================================
